@@ -306,8 +306,8 @@ def cmd_report():
     caught = {k: v for k, v in results.items() if v["caught"] and not str(v["caught"][1]).startswith("HARNESS")}
     missed = {k: v for k, v in results.items() if not v["caught"]}
     herr = {k: v for k, v in results.items() if v["caught"] and str(v["caught"][1]).startswith("HARNESS")}
-    out = ["# Systematic mutation analysis", "", f"{total} single-point mutants of the library (comparison / boolean / constant / arithmetic operators, negated tests, dropped statements, sorted->list, dropped break/continue); {len(results)} of them pass the repository's 82 tests (survivors).",
-           f"Of the survivors, {len(caught)} are caught by the quick tier (every 3rd shard) of a relevant check, {len(herr)} make a check stop with a harness error (exit 2: an exception outside the library, e.g. a renamed private helper), {len(missed)} are caught by none.", "",
+    out = ["# Systematic mutation analysis", "", f"{total} single-point mutants of the library (comparison / boolean / constant / arithmetic operators, negated tests, dropped statements, sorted->list, dropped break/continue); {len(json.loads((OUT / 'survivors.json').read_text()))} of them pass the repository's 82 tests (survivors); {len(results)} of the survivors have been run through the checks so far (the rest was not reached in the time available).",
+           f"Of the survivors run, {len(caught)} are caught by the quick tier (reduced: every 8th, then every 2nd shard) of a relevant check, {len(herr)} make a check stop with a harness error (exit 2: an exception outside the library, e.g. a renamed private helper), {len(missed)} are caught by none.", "",
            "## Survivors caught by no check", "", "| mutant | change | checks run | assessment |", "|---|---|---|---|"]
     for k, v in sorted(missed.items()):
         out.append(f"| {k} | {v['file'].split('/')[-1]} {v['desc'].replace('|', '/')} | {' '.join(p for p, _ in v['ran'])} | {notes.get(k, '')} |")
